@@ -3,6 +3,7 @@ import re
 from webauthn.helpers.base64url_to_bytes import base64url_to_bytes
 from webauthn.helpers.bytes_to_base64url import bytes_to_base64url
 
+from .. import corr
 from ..driver import Driver, has_surrogate
 from ..oracle import Oracle
 
@@ -154,6 +155,32 @@ def run(ctx, res):
                                        "encoded_head": e[:64], "encoded_len": len(e), "match": {"op": "b64_encode", "size": "huge"}})
                 break
         res.nontrivial.add(("huge", n))
+    # --- the same bytes behind buffers whose items are not single bytes (memoryviews cast to 16/32/64-bit items or to signed
+    # bytes / chars, multi-dimensional views, array.array): a buffer's content is its bytes, whatever its `len()` counts
+    import array
+    for n in list(range(0, 25)) + [48, 99, 100, 1022, 4096]:
+        b = rng.bytes_(n)
+        want = bytes_to_base64url(b)
+        forms = [("array-B", array.array("B", b))]
+        for fmt in ("b", "c", "H", "h", "I", "Q"):
+            size = memoryview(b"\0" * 8).cast(fmt).itemsize
+            if n and n % size == 0:
+                forms.append((f"memoryview-cast-{fmt}", memoryview(b).cast(fmt)))
+                if fmt in ("H", "I", "Q"):
+                    arr = array.array(fmt)
+                    if arr.itemsize == size:
+                        arr.frombytes(b)
+                        forms.append((f"array-{fmt}", arr))
+        if n and n % 2 == 0:
+            forms.append(("memoryview-2d", memoryview(b).cast("B", shape=[2, n // 2])))
+        for label, form in forms:
+            c = corr.code_outcome(lambda: bytes_to_base64url(form), lambda r: r)
+            res.evaluations += 1
+            res.count("buffer-form:" + label.split("-")[0])
+            res.nontrivial.add(("buffer-form", label, n))
+            if c["k"] != "accept" or c["record"] != want:
+                res.violations.append({"why": f"the {n} bytes {b.hex()[:40]} given as {label} encode to {str(c.get('record') or c)[:80]}, as bytes to {want[:80]}",
+                                       "input": b.hex(), "form": label, "match": {"op": "b64_encode", "form": "buffer"}})
     # --- mutable byte-like inputs changed in place between two conversions: each conversion is of the bytes as they are now
     for k in range(40):
         buf = bytearray(rng.bytes_(rng.choice([1, 3, 16, 33])))
